@@ -20,7 +20,12 @@ decision; a relationship checker editing its context dict; a metrics sink editin
 versions, under evaluate_async, evaluate_sync in a plain thread / the main thread / inside a running loop / a worker
 thread of a loop): each request is evaluated twice on one Guard; the caller's Subject/Action/Resource/Context and
 the policy must equal their deep snapshots and keep their containers, the second decision must equal the first and
-both the decision of a fresh Guard with inert collaborators.  Edits of the containers the engine assembles (level
+both the decision of a fresh Guard with inert collaborators.  Cross-talk through shared mutable state that only a
+particular thread interleaving shows (kind "interleave"): two different requests are evaluated on ONE Guard from two
+real threads under the deterministic cooperative scheduler (harness/sched.py); the stop points are derived from the
+source (lines touching self./closure/mutable-global names, with lines, loop headers), the decision's to_thread worker
+is traced as part of its evaluation; all schedules with one pre-emption and a seeded sample with two are run, and
+every Decision must equal the one the request gets alone on a fresh Guard; the failing schedule is the replay.  Edits of the containers the engine assembles (level
 "top") must never reach the caller: violation.  Edits of containers nested inside attribute values / obligation
 objects / relationship-context values (level "nested") reach the caller on the current tree: open finding tagged
 "c14-nested-alias" in KNOWN_FINDINGS.json (known only when the observed change is confined to such nested
@@ -344,8 +349,9 @@ IL_COLLAB = {"roles": True, "rel": "A", "oblig": "basic", "strict": False, "cach
 
 
 def interleave_cases(chk):
-    """pairs of requests for one Guard.  Quick: every policy of interleave_policies() with a rotating selection of
-    request pairs; thorough: every ordered... unordered pair, with and without a decision cache, plus the general pool."""
+    """pairs of requests for one Guard.  Quick: every policy of interleave_policies() with one or two request pairs
+    in rotation; thorough: all 21 pairs (two policies) or 10 drawn pairs (the others), a third of them also with a
+    decision cache and strict types, plus pairs from the general policy / request pool."""
     rng = chk.rng
     P = interleave_policies()
     reqs = interleave_requests()
@@ -357,9 +363,11 @@ def interleave_cases(chk):
                       "seed": rng.randrange(1 << 30), "two": two})
     for pi, (name, pol) in enumerate(P.items()):
         if chk.tier == "quick":
-            chosen = [pairs[(5 * pi + 3 * k) % len(pairs)] for k in range(2)]
-        else:
+            chosen = [pairs[(5 * pi + 3 * k) % len(pairs)] for k in range(1 if name in ("il_oblig_mix", "il_set") else 2)]
+        elif name in ("il_oblig3", "il_tiers_first"):
             chosen = pairs
+        else:
+            chosen = rng.sample(pairs, 10)
         for (i, j) in chosen:
             add(f"{name}|{i},{j}", pol, reqs[i], reqs[j], IL_COLLAB, 6 if chk.tier == "quick" else 20)
             if chk.tier == "thorough" and (i + j) % 3 == 0:
@@ -1293,7 +1301,7 @@ class ILRun:
         from rbacx.core.engine import Guard
         self.col = Collab(case["collab"], "sync")
         self.guard = Guard(copy.deepcopy(case["policy"]), **self.col.kw)
-        self.s = sched.Scheduler(il_files(), None, filt, block_timeout=3.0, hard_timeout=10.0)
+        self.s = sched.Scheduler(il_files(), None, filt, block_timeout=5.0, hard_timeout=10.0)
         self.out = [None, None]
         self.grants = [0, 0]
         for i in (0, 1):
@@ -1672,6 +1680,8 @@ def child_main():
                 r = run_gather(case, T)
             elif case["kind"] == "hostile":
                 r = run_hostile(case, T)
+            elif case["kind"] == "interleave":
+                r = run_interleave(case, T)
             elif case["kind"] == "watchdog":
                 r = run_watchdog(case, T)
             else:
@@ -1696,12 +1706,14 @@ def child_main():
 def case_cost(c):
     if c["kind"] == "hostile":
         return 0.12 * max(1, len(c.get("requests") or []))
+    if c["kind"] == "interleave":
+        return 0.3 if c.get("sched") is not None else 6.0
     return {"flavours": 0.5, "gather": 0.6, "watchdog": 0.7}.get(c["kind"], 0.1)
 
 
 def run_children(cases, T=T_HANG, nproc=None):
     """results aligned with cases; a case whose child had to be killed gets {'error': 'child_killed'}."""
-    idx = [(i, c) for i, c in enumerate(cases) if c["kind"] in ("flavours", "gather", "watchdog", "hostile")]
+    idx = [(i, c) for i, c in enumerate(cases) if c["kind"] in ("flavours", "gather", "watchdog", "hostile", "interleave")]
     results = [None] * len(cases)
     if not idx:
         return results
@@ -1918,6 +1930,43 @@ def _hostile_desc(h):
     return ", ".join(parts) + "; level " + h.get("level", "top")
 
 
+def judge_interleave(chk, c, r):
+    name = c.get("name", "?")
+    if "error" in r:
+        if r["error"] == "child_killed":
+            chk.violation("two evaluations on one Guard from two threads under the scheduler did not finish (the child "
+                          "process running this case had to be killed)", strip(c), impl=r, model="both return")
+        else:
+            chk.notes.append(f"harness error on interleave case {name}: {r['error'][:300]}")
+            chk.corr_break("harness could not run an interleaving case", strip(c), impl=r, theorems=["c14_pure"])
+        return
+    solo = r["solo"]
+    differ = solo[0] != solo[1]
+    key = (name, json.dumps(c["collab"], sort_keys=True), json.dumps(c.get("sched")))
+    for i in range(r.get("runs", 0)):
+        chk.mark(("interleave",) + key + (i,), differ)
+    chk.count("interleave:cases")
+    chk.count("interleave:schedules", r.get("runs", 0))
+    chk.count("interleave:solo_decisions_" + ("differ" if differ else "equal"))
+    if r.get("steps"):
+        chk.count("interleave:stop_points<=%d" % (25 * (1 + max(r["steps"]) // 25)))
+    for p in (r.get("problems") or [])[:2]:
+        chk.count("interleave:scheduler_note")
+        chk.notes.append(f"interleave case {name}: {p}"[:300])
+    if r.get("nfail"):
+        chk.count("interleave:VIOLATION")
+    for f in (r.get("fail") or [])[:2]:
+        who = " and ".join("T%d" % i for i in f["differs"])
+        chk.violation("concurrent evaluations affect each other: two requests evaluated on ONE Guard from two threads, "
+                      "interleaved as in `sched` ([[thread, stop points granted | null = to completion], ...], stop points "
+                      f"= lines touching self./closure/global state, with lines, loop headers): the decision of {who} "
+                      "differs from the decision the same request gets alone on a fresh Guard "
+                      f"({r['nfail']} of {r['runs']} schedules of this pair differ)",
+                      dict(strip(c), sched=f["sched"]), impl={"decisions_interleaved": f["dec"]},
+                      model={"decisions_alone": solo})
+    chk.sample({"interleave_case": name, "steps": r.get("steps"), "schedules": r.get("runs"), "solo": solo}, every=11)
+
+
 def judge_gather(chk, c, r):
     name = c.get("name", "?")
     if "error" in r:
@@ -2078,6 +2127,8 @@ def check_cases(chk, cases, replay=False):
             judge_gather(chk, c, r)
         elif c["kind"] == "hostile":
             judge_hostile(chk, c, r)
+        elif c["kind"] == "interleave":
+            judge_interleave(chk, c, r)
         elif c["kind"] == "watchdog":
             judge_watchdog(chk, c, r, mvs[json.dumps(model_config(c), sort_keys=True)], replay)
             acc = accepts.get(i)
@@ -2109,6 +2160,15 @@ def run(chk):
                 "async} x 5 API flavours, each request evaluated twice: request and policy vs deep snapshots, second vs "
                 "first decision vs a fresh Guard with inert collaborators; "
                 "50 concurrent evaluations (gather, threads, threads under a loop) on one or two engines vs sequential; "
+                "two different requests evaluated on one Guard from two threads (each on its own event loop, the "
+                "to_thread worker traced too) under the deterministic line scheduler (stop points: every line of "
+                "core/{obligations,compiler,policy,policyset,engine}.py that mentions self./cls., a variable of an "
+                "enclosing function or a mutable module global, every with line, every loop header): ALL schedules with "
+                "exactly one pre-emption (T0 granted k stop points, T1 to completion, T0 finishes; every k; and with "
+                "the threads exchanged), both sequential orders, and a seeded sample with two pre-emptions (6 per pair "
+                "quick, 10-20 thorough) — each Decision vs the same request alone on a fresh Guard (policies: 3 "
+                "obligations per permit, specificity tiers with rel conditions, a policy set; quick 2 request pairs "
+                "per policy, thorough up to all 21 pairs, with and without cache); "
                 "(b) every entry point x {plain thread, running loop} alone, start;stop, start;check;stop, with a second "
                 "caller, racing starts, with the polling thread free / held in source.load() / held in set_policy, sync "
                 "and async sources, failing sources: returned within %.0fs or not, vs the lock model's verdict for the "
@@ -2132,10 +2192,11 @@ def run(chk):
     except Exception:  # noqa: BLE001
         chk._c14_full_family = True
     cases = (corp + [{"kind": "skeleton"}, {"kind": "witness"}] + watchdog_cases(chk) + flavour_cases(chk)
-             + hostile_cases(chk) + gather_cases(chk))
+             + hostile_cases(chk) + interleave_cases(chk) + gather_cases(chk))
     chk.extra["cases"] = {"corpus": len(corp), "watchdog": sum(1 for c in cases if c["kind"] == "watchdog"),
                           "flavours": sum(1 for c in cases if c["kind"] == "flavours"),
                           "hostile": sum(1 for c in cases if c["kind"] == "hostile"),
+                          "interleave": sum(1 for c in cases if c["kind"] == "interleave"),
                           "gather": sum(1 for c in cases if c["kind"] == "gather")}
     check_cases(chk, cases)
     fam = lib.dec(lib.run_model("conc", [lib.model_call("conc.family")])[0])
